@@ -181,7 +181,10 @@ def main(argv=None):
         if nb["prop"] != prop or a.only:
             continue
         t1 = time.time()
-        pr = subprocess.run([sys.executable, "-W", "ignore", os.path.join(ROOT, nb["script"])], capture_output=True, text=True, cwd=ROOT)
+        env = dict(os.environ)
+        if REPO != "/repo":  # dev runs against a scratch copy: the native script must import that copy too
+            env["PYTHONPATH"] = REPO + "/src" + (os.pathsep + env["PYTHONPATH"] if env.get("PYTHONPATH") else "")
+        pr = subprocess.run([sys.executable, "-W", "ignore", os.path.join(ROOT, nb["script"])], capture_output=True, text=True, cwd=ROOT, env=env)
         try:
             doc = json.loads([l for l in pr.stdout.splitlines() if l.startswith("{")][-1])
         except Exception:
